@@ -976,11 +976,14 @@ impl Mp4TrackWriter {
             // mp4a.esds.es_desc.dec_config.max_bitrate
             // mp4a.esds.es_desc.dec_config.avg_bitrate
         }
-        if let Ok(stco) = StcoBox::try_from(self.trak.mdia.minf.stbl.co64.as_ref().unwrap()) {
-            self.trak.mdia.minf.stbl.stco = Some(stco);
-            self.trak.mdia.minf.stbl.co64 = None;
+        // The 32-bit chunk offset table is chosen for the box that is written; the writer's own
+        // state keeps its co64, so that further calls on this writer find what they expect.
+        let mut trak = self.trak.clone();
+        if let Ok(stco) = StcoBox::try_from(trak.mdia.minf.stbl.co64.as_ref().unwrap()) {
+            trak.mdia.minf.stbl.stco = Some(stco);
+            trak.mdia.minf.stbl.co64 = None;
         }
 
-        Ok(self.trak.clone())
+        Ok(trak)
     }
 }
